@@ -87,8 +87,8 @@ func checkC06(c *Ctx) {
 		})
 	}
 	c.R.Extra["comma_ok_assertions_on_peer_data"] = nOK
-	if nOK < 10 || all < 1 {
-		c.R.Break("R-assert saw %d comma-ok and %d single-value assertions on peer data (expected >= 10 and >= 1)", nOK, all)
+	if nOK < 10 {
+		c.R.Break("R-assert saw %d comma-ok and %d single-value assertions on peer data (expected >= 10 comma-ok)", nOK, all)
 	}
 
 	// ---- R-panic-sites: explicit panics
